@@ -314,16 +314,26 @@ theorem children_foreign {cs : List Child} {es : List Elem} (hn : cs.map (·.nam
   obtain ⟨x, hx, hxe⟩ := List.mem_map.mp this
   rw [← hxe]; exact hns x hx
 
-/-- **round trip with an application payload**: any sequence of complete elements outside the
-stanza-error namespace (what `Wrap(payload)` is given) leaves the decoded error unchanged -/
+/-- names of decoded payload children are the payload's element names: none is `n` -/
+theorem children_not_named {cs : List Child} {es : List Elem} (hn : cs.map (·.name) = es.map (·.name))
+    (n : Name) (hne : ∀ x ∈ es, x.name ≠ n) : ∀ c ∈ cs, c.name ≠ n := by
+  intro c hc
+  have : c.name ∈ es.map (·.name) := by rw [← hn]; exact List.mem_map.mpr ⟨c, hc, rfl⟩
+  obtain ⟨x, hx, hxe⟩ := List.mem_map.mp this
+  rw [← hxe]; exact hne x hx
+
+/-- **round trip with an application payload**: any sequence of complete elements after the
+condition and the texts — in ANY namespace, the stanza-errors namespace included, as long as
+none of them is a `<text/>` of that namespace — leaves the decoded error unchanged: the
+condition is the FIRST child in the stanza-errors namespace, later ones do not replace it -/
 theorem C13_stanza_error_roundtrip_payload (parse : String → Option String) (e : SErr) (es : List Elem)
-    (hes : ∀ x ∈ es, x.ok) (hns : ∀ x ∈ es, x.name.space ≠ nsErr)
+    (hes : ∀ x ∈ es, x.ok) (hnt : ∀ x ∈ es, x.name ≠ textName)
     (hby : e.by_ ≠ "" → parse e.by_ = some e.by_) (hc : condOf e ≠ "text") :
     decodeErr parse (errTokens e (es.flatMap Elem.toks)) =
       some ⟨e.by_, e.typ, condOf e, (sortTexts e.texts).filter (·.2 ≠ "")⟩ := by
   obtain ⟨cs, hn, hf⟩ := fold_elems es hes
     ([⟨⟨nsErr, condOf e⟩, [], ""⟩] ++ ((sortTexts e.texts).filter (·.2 ≠ "")).map (textChild nsErr))
-  have hforeign := children_foreign hn nsErr hns
+  have hnot := children_not_named hn textName hnt
   have hchildren : childrenOf (errContent e (es.flatMap Elem.toks)) =
       ⟨⟨nsErr, condOf e⟩, [], ""⟩ :: (((sortTexts e.texts).filter (·.2 ≠ "")).map (textChild nsErr) ++ cs) := by
     unfold childrenOf errContent
@@ -338,9 +348,7 @@ theorem C13_stanza_error_roundtrip_payload (parse : String → Option String) (e
   have hcs : cs.filter (fun c => decide (c.name = textName)) = [] := by
     apply List.filter_eq_nil_iff.mpr
     intro c hc'
-    have := hforeign c hc'
-    simp only [decide_eq_true_eq]
-    intro h; rw [h] at this; exact this rfl
+    simpa using hnot c hc'
   unfold decodeErr errTokens
   rw [contentOf_wrap]
   simp only [hchildren, List.filter_cons, List.filter_append, hne1, hne2, if_true, Bool.false_eq_true, if_false,
@@ -350,6 +358,9 @@ theorem C13_stanza_error_roundtrip_payload (parse : String → Option String) (e
   rw [hfil]
   by_cases ht : e.typ = "" <;> by_cases hb : e.by_ = "" <;>
     simp [errAttrs, ht, hb, lastAttr, attr0, hby]
+
+example : (⟨⟨nsErr, "gone"⟩, [], [.chars "xmpp:other@example.net"], ⟨nsErr, "gone"⟩⟩ : Elem).name ≠ textName := by
+  decide
 
 /-! ### Stream errors -/
 
